@@ -328,9 +328,6 @@ def rule_validations_present(ctx, rep: Report, rid="V6"):
          lambda gs: len(gs) <= 1 and all("len(args) == 1" in x and "not in" in x and "'()'" in x for x in gs)),
         ("defaulted arguments only at the tail", "MatlabWrapper", "_expand_default_arguments",
          lambda g: g.startswith("assert") and "default is None" in g and "all(" in g, no_outer),
-        ("template/instantiation counts agree", "InstantiatedClass", "__init__",
-         lambda g: g.startswith("assert") and "typenames" in g and "len(" in g and "instantiations" in g,
-         lambda gs: len(gs) <= 1 and all("template" in x for x in gs)),
     ]
     for what, cls, meth, pred, outer_ok in specs:
         fn = prog.method(cls, meth)
